@@ -30,6 +30,7 @@ type world struct {
 	calls    []string
 	recovers int
 	raised   int // panics actually raised by user code
+	args     []string // arguments received by User.calc, rendered
 	introspection bool // introspection enabled for the operation
 	onCall   func(n int) // called at the n-th resolver call (cancellation points)
 	gated    bool // resolver calls are schedule gates (C06/C13: completion orders are replayed natively)
@@ -39,6 +40,7 @@ var theWorld *world
 
 func newWorld(budget int, panics bool) *world {
 	theWorld = &world{outs: map[string]ref.Out{}, guards: map[string]ref.Kind{}, budget: budget, panics: panics}
+	OddPanicHook = theWorld.notePanic
 	return theWorld
 }
 
@@ -102,7 +104,7 @@ func (w *world) Resolve(pt, pid, field string, args map[string]any) ref.Out {
 	}
 	var o ref.Out
 	switch pt + "." + field {
-	case "Query.me", "Query.user", "User.best", "Mutation.c", "Item.owner", "User.boss", "Query.strict":
+	case "Query.me", "Query.user", "User.best", "Mutation.c", "Item.owner", "User.boss", "Query.strict", "User.link", "Item.link":
 		c := w.pick(key, 2+w.nf())
 		switch c {
 		case 0:
@@ -182,7 +184,7 @@ func (w *world) Resolve(pt, pid, field string, args map[string]any) ref.Out {
 		default:
 			o, _ = w.fault(c, 3)
 		}
-	case "User.secret", "User.echo":
+	case "User.secret", "User.echo", "User.calc":
 		c := w.pick(key, 2+w.nf())
 		switch c {
 		case 0:
@@ -225,13 +227,23 @@ func (w *world) Guard(k int, pid, field string) ref.Kind {
 		return g
 	}
 	g := ref.KValue
-	switch c := w.pick(key, 2+w.nf()); c {
-	case 1:
-		g = ref.KNull
-	case 2:
-		g = ref.KError
-	case 3:
-		g = ref.KPanic
+	if k == 3 {
+		// argument directive: pass, error, panic
+		switch c := w.pick(key, 1+w.nf()); c {
+		case 1:
+			g = ref.KError
+		case 2:
+			g = ref.KPanic
+		}
+	} else {
+		switch c := w.pick(key, 2+w.nf()); c {
+		case 1:
+			g = ref.KNull
+		case 2:
+			g = ref.KError
+		case 3:
+			g = ref.KPanic
+		}
 	}
 	w.guards[key] = g
 	return g
@@ -433,14 +445,98 @@ func (r *userResolver) str(obj *User, field string) (*string, error) {
 func (r *userResolver) Secret(ctx context.Context, obj *User) (*string, error) {
 	return r.str(obj, "secret")
 }
-func (r *userResolver) Echo(ctx context.Context, obj *User, n *int, s *string) (*string, error) {
+func (r *userResolver) Echo(ctx context.Context, obj *User, n *int, s *string, o *Odd) (*string, error) {
 	return r.str(obj, "echo")
+}
+func (r *userResolver) Link(ctx context.Context, obj *User) (*User, error) {
+	return r.w.user("User", obj.ID, "link")
+}
+
+func renderFilter(f *Filter) string {
+	if f == nil {
+		return "nil"
+	}
+	s := "{min:"
+	if f.Min == nil {
+		s += "nil"
+	} else {
+		s += strconv.Itoa(*f.Min)
+	}
+	s += " tags:"
+	if f.Tags == nil {
+		s += "nil"
+	} else {
+		s += "[" + strings.Join(f.Tags, ",") + "]"
+	}
+	s += " sub:" + renderFilter(f.Sub) + " g:"
+	if f.G == nil {
+		s += "nil"
+	} else {
+		s += strconv.Itoa(*f.G)
+	}
+	return s + "}"
+}
+
+func renderInts(xs []int) string {
+	if xs == nil {
+		return "nil"
+	}
+	var p []string
+	for _, x := range xs {
+		p = append(p, strconv.Itoa(x))
+	}
+	return "[" + strings.Join(p, ",") + "]"
+}
+
+// Calc records exactly what the generated argument binder handed over.
+func (r *userResolver) Calc(ctx context.Context, obj *User, f *Filter, xs []int, e *Color, o *Odd, id *string, fl *float64, n int, ys [][]int) (*string, error) {
+	a := "f=" + renderFilter(f) + " xs=" + renderInts(xs) + " e="
+	if e == nil {
+		a += "nil"
+	} else {
+		a += string(*e)
+	}
+	a += " o="
+	if o == nil {
+		a += "nil"
+	} else {
+		a += o.V
+	}
+	a += " id="
+	if id == nil {
+		a += "nil"
+	} else {
+		a += *id
+	}
+	a += " fl="
+	if fl == nil {
+		a += "nil"
+	} else {
+		a += strconv.FormatFloat(*fl, 'g', -1, 64)
+	}
+	a += " n=" + strconv.Itoa(n) + " ys="
+	if ys == nil {
+		a += "nil"
+	} else {
+		var p []string
+		for _, y := range ys {
+			p = append(p, renderInts(y))
+		}
+		a += "[" + strings.Join(p, ",") + "]"
+	}
+	r.w.mu.Lock()
+	r.w.args = append(r.w.args, a)
+	r.w.mu.Unlock()
+	return r.str(obj, "calc")
 }
 
 type itemResolver struct{ w *world }
 
 func (r *itemResolver) Owner(ctx context.Context, obj *Item) (*User, error) {
 	return r.w.user("Item", obj.ID, "owner")
+}
+func (r *itemResolver) Link(ctx context.Context, obj *Item) (*User, error) {
+	return r.w.user("Item", obj.ID, "link")
 }
 
 // ---- directive
@@ -454,8 +550,27 @@ func (w *world) guardDirective(ctx context.Context, obj any, next graphql.Resolv
 	case *Item:
 		pid = o.ID
 	}
+	if k == 3 {
+		// argument directive: keyed by the response path of the field (the path context ends with the argument name)
+		p := graphql.GetPath(ctx)
+		arg := ""
+		if n := len(p); n > 0 {
+			if a, ok := p[n-1].(ast.PathName); ok {
+				arg = string(a)
+			}
+			p = p[:n-1]
+		}
+		switch w.Guard(3, pathString(p), fc.Field.Name+"."+arg) {
+		case ref.KError:
+			return nil, errBoom
+		case ref.KPanic:
+			w.notePanic()
+			panic("argument directive panic")
+		}
+		return next(ctx)
+	}
 	if k != 1 {
-		return next(ctx) // argument / input-field locations: pass through (exercised by C02)
+		return next(ctx) // input-field location: pass through
 	}
 	switch w.Guard(k, pid, fc.Field.Name) {
 	case ref.KNull:
